@@ -239,11 +239,15 @@ SetColorN(st, which) ==
        IF AllNum(q) THEN [SetColor(st, which, NumsOf(q)) EXCEPT !.args = rest] ELSE [st EXCEPT !.args = rest]
 
 Exec(st, o, a) ==            \* a: the operands popped for operator o (exactly NArgs(o) of them)
-  CASE o = "q"  -> [st EXCEPT !.gstack = Append(st.gstack, [ctm |-> st.ctm, ts |-> st.ts, gs |-> st.gs])]
+  \* the current colour spaces are part of the graphics state (ISO 32000-1 table 52) and are saved and restored with it;
+  \* as coded ("QKeepsColorSpace") q/Q saved ctm, text state and the PDFGraphicState object only
+  CASE o = "q"  -> [st EXCEPT !.gstack = Append(st.gstack, [ctm |-> st.ctm, ts |-> st.ts, gs |-> st.gs, scs |-> st.scs, ncs |-> st.ncs])]
     [] o = "Q"  -> IF st.gstack = <<>> THEN st
                    ELSE LET top == st.gstack[Len(st.gstack)] IN
                         [st EXCEPT !.gstack = SubSeq(st.gstack, 1, Len(st.gstack) - 1),
-                                   !.ctm = top.ctm, !.dctm = top.ctm, !.ts = top.ts, !.gs = top.gs]
+                                   !.ctm = top.ctm, !.dctm = top.ctm, !.ts = top.ts, !.gs = top.gs,
+                                   !.scs = IF "QKeepsColorSpace" \in Dev THEN st.scs ELSE top.scs,
+                                   !.ncs = IF "QKeepsColorSpace" \in Dev THEN st.ncs ELSE top.ncs]
     [] o = "cm" -> IF AllNum(a) THEN LET m == Mult(NumsOf(a), st.ctm) IN [st EXCEPT !.ctm = m, !.dctm = m] ELSE st
     [] o = "BT" -> [st EXCEPT !.ts.tm = Ident, !.ts.lx = 0, !.ts.ly = 0]
     [] o = "ET" -> st
@@ -372,7 +376,8 @@ NoResidue == [][ (pc' = pc + 1 /\ CurTok.t = "op" /\
 \* Q restores what the matching q saved (action property): after Q the state equals the saved one
 QRestores == [][ (pc' = pc + 1 /\ CurTok.t = "op" /\ OpStr(CurTok) = "Q" /\ st.gstack # <<>>) =>
                    LET top == st.gstack[Len(st.gstack)] IN
-                   st'.ctm = top.ctm /\ st'.dctm = top.ctm /\ st'.ts = top.ts /\ st'.gs = top.gs ]_vars
+                   st'.ctm = top.ctm /\ st'.dctm = top.ctm /\ st'.ts = top.ts /\ st'.gs = top.gs
+                   /\ ("QKeepsColorSpace" \notin dev => st'.scs = top.scs /\ st'.ncs = top.ncs) ]_vars
 \* a form XObject changes nothing of the caller's state but the outputs (action property)
 FormTransparent == [][ (pc' = pc + 1 /\ CurTok.t = "op" /\ OpStr(CurTok) = "Do") =>
                          st'.ctm = st.ctm /\ ("FormCtmLeak" \notin dev => st'.dctm = st.ctm) /\ st'.ts = st.ts /\ st'.gs = st.gs
